@@ -374,6 +374,57 @@ for K, mod in ((SFixed, "cohdl.std._fixed:SFixed."), (UFixed, "cohdl.std._fixed:
                 con.cases.append(c)
 
 
+# ---- the spellings of resize: x.resize(l, r, rs, os) and x.resize[l:r](rs, os) are resize_fn with exactly these arguments -------
+from cohdl.std import _fixed as FX  # noqa: E402
+from contracts.c05_format_cast import Built  # noqa: E402
+
+
+class _Target:
+    """the fixed-point object: resize_fn records its arguments"""
+
+
+_Target.resize_fn = lambda self, *a, **k: None
+I.register_model(_Target.resize_fn, lambda it, self, *a, **k: SObj(_Target, f_call=(a, k)))
+
+
+def spelling_spec(slice_form):
+    def spec(sx, self, *args, **kw):
+        real = sx.real_args[0]
+
+        def holds(res):
+            if not (isinstance(res, SObj) and res.kind is _Target):
+                return False
+            a, k = res.fields["f_call"]
+            got = dict(zip(("left", "right", "round_style", "overflow_style"), a))
+            got.update(k)
+            want = {"left": "L", "right": "R", "round_style": kw.get("round_style", RS.TRUNCATE), "overflow_style": kw.get("overflow_style", OS.WRAP)}
+            return got == want
+
+        return C.Pred(holds, "resize_fn(left, right, round_style, overflow_style) with the arguments given")
+
+    return spec
+
+
+for qual, slice_form in (("cohdl.std._fixed:_FixedResize.__call__", True), ("cohdl.std._fixed:_Resize.__call__", False)):
+    con = contract(qual, PROPS)
+    for rs in (None, RS.TRUNCATE, RS.ROUND):
+        for os_ in (None, OS.WRAP, OS.SATURATE):
+            kw = {}
+            if rs is not None:
+                kw["round_style"] = C.Const(rs, "rs")
+            if os_ is not None:
+                kw["overflow_style"] = C.Const(os_, "os")
+            if slice_form:
+                SELF_ = Built([], lambda env: SObj(FX._FixedResize, _obj=SObj(_Target), left="L", right="R"), lambda a: "None", lambda a: None)
+                args = [SELF_]
+            else:
+                SELF_ = Built([], lambda env: SObj(FX._Resize, _obj=SObj(_Target)), lambda a: "None", lambda a: None)
+                args = [SELF_, C.Const("L", "l"), C.Const("R", "r")]
+            c = Case(f"round_style={'default' if rs is None else rs.name},overflow_style={'default' if os_ is None else os_.name}", args, spelling_spec(slice_form), kwargs=kw)
+            c.native = False
+            con.cases.append(c)
+
+
 # ---- equality: same format required; then equal raw values <=> equal represented numbers -----------------------
 def eq_spec(kind):
     def spec(sx, a, b):
